@@ -34,6 +34,7 @@ Alpha == << [s |-> "P",   t |-> "li t0, 1"],
             [s |-> "RJ",  t |-> "jalr zero, ra, 0"],
             [s |-> "RR",  t |-> "jr ra"],
             [s |-> "H2",  t |-> "la t2, L2\n    csrrw zero, 5, t2"],
+            [s |-> "H2",  t |-> "la t2, L2\n    csrrw t2, 5, t2"],      \* the swap form: old vector into the same register
             [s |-> "U",   t |-> "uret"],
             [s |-> "JT1", t |-> "jal t0, K1"],        \* a jump that links into a register other than ra
             [s |-> "JT2", t |-> "jal t1, K2"],
